@@ -2,7 +2,7 @@
 From Coq Require Import ZArith QArith List Bool String Lia Permutation.
 From KV Require Import Base.Sx Base.Str Gen.Generated Model.Interp Model.SensorCache Model.SensorFill.
 Import ListNotations.
-Open Scope Q_scope.
+Local Open Scope Q_scope.
 
 (* ---------------------------------------------------------------- the documented dummy value per dtype *)
 Lemma fill_dummy_table :
